@@ -6,6 +6,7 @@ def main(tier, replay=None):
     if replay:
         return vk_replay("C02", replay)
     res = Result("C02", tier, "model_checking")
+    nconf = vk_conformance(tier)   # the model is compared with the real kernel before anything is concluded from it
     q = tier == "quick"
     common = ["signals=0", "verdicts=KD", "reorder=1"]
     fams = [
@@ -28,4 +29,5 @@ def main(tier, replay=None):
                 "inode, a number is never handed out while its previous holder is still in the queue, leftovers are removed only after 36 h")
     res.assumptions = ["virtual kernel (appendix A); descriptors no other process can reach (preloaded input pipes, the daemon's log) are not scheduling points"]
     res.require_nonzero("evaluations", "qstate_S2", "qstate_S3", "qstate_S4", "qstate_S5", "machine_crashes", "bounces_queued", "stale_leftovers_collected", "second_instance_refused", "hung_injector_exit_52", "failing_injections")
+    res.notes.append("virtual kernel vs Linux: %d operation sequences compared before this run, all agree (bin/conformance)" % nconf)
     return res.finish()
